@@ -550,3 +550,8 @@ CORPUS += [
     V("C18", "eq-op-unif-prize-commuted", _OPG, "                1\n                + torch.randint(", "                torch.randint(", None) if False else
     V("C18", "op-unif-prize-range-200", _OPG, "                    0, 100, (*batch_size, self.num_loc)", "                    0, 200, (*batch_size, self.num_loc)", "C18.v"),
 ]
+CORPUS += [
+    V("C18", "mtvrp-backhaul-fraction-complemented", _MG, "        is_linehaul = torch.rand(*batch_size, num_loc) > self.backhaul_ratio", "        is_linehaul = torch.rand(*batch_size, num_loc) < self.backhaul_ratio", "C18.y"),
+    V("C18", "mtvrp-backhaul-second-draw", _MG, "            backhaul_demand * ~is_linehaul\n", "            backhaul_demand * ~(torch.rand(*batch_size, num_loc) > self.backhaul_ratio)\n", "C18.k"),
+    V("C18", "eq-mtvrp-backhaul-indicator-mirrored", _MG, "        is_linehaul = torch.rand(*batch_size, num_loc) > self.backhaul_ratio", "        is_linehaul = self.backhaul_ratio < torch.rand(*batch_size, num_loc)", None),
+]
